@@ -5,6 +5,7 @@
 -/
 import Kopf.Lemmas.C02_Cycle
 import Kopf.Lemmas.C02_Sub
+import Kopf.Lemmas.C02_Deselect
 namespace Kopf.C02
 
 /-- A handler whose success or permanent failure is recorded is never invoked again. -/
@@ -83,6 +84,63 @@ theorem closed_purges_skip (cfg : Cfg) (P : Store) (now now1 : Tick) (exec : Id 
   refine ⟨rfl, ?_⟩
   intro i ho
   simp [purge, ho]
+
+/-- "Exactly when every SELECTED handler has finished": the closing decision — and what is invoked — depends on the
+    records of the selected handlers ONLY. Two objects that carry the same records for the selected handlers are
+    treated alike, whatever else they carry: finished or UNFINISHED records of handlers that are not selected (any
+    more), of the same purpose or another (no hypothesis such as `NoExtras`). -/
+theorem closed_ignores_unselected_records (cfg : Cfg) (P Q : Store) (now now1 : Tick) (exec : Id → Nat → Outcome)
+    (hsub : ∀ i ∈ cfg.selected, i ∈ cfg.owned) (hagree : ∀ i ∈ cfg.selected, P i = Q i) :
+    (cycle cfg P now now1 exec).closed = (cycle cfg Q now now1 exec).closed ∧
+    (cycle cfg P now now1 exec).invoked = (cycle cfg Q now now1 exec).invoked := by
+  by_cases hr : handlerReasons.contains cfg.reason = true
+  · by_cases he : cfg.selected.isEmpty = true
+    · rw [cycle_no_handlers cfg P now now1 exec hr he, cycle_no_handlers cfg Q now now1 exec hr he]
+      exact ⟨rfl, rfl⟩
+    · have he' : cfg.selected.isEmpty = false := by simpa using he
+      have hsim := preState_sim (now := now) hsub hagree
+      have hpost : SimOn cfg.selected (postState cfg P now now1 exec) (postState cfg Q now now1 exec) :=
+        execOnce_sim hsim
+      rw [cycle_main cfg P now now1 exec hr he', cycle_main cfg Q now now1 exec hr he']
+      refine ⟨?_, (execOnce_invoked_sim (now1 := now1) (exec := exec) hsim).symm⟩
+      simp only
+      rw [Bool.eq_iff_iff, done_iff hsub, done_iff hsub]
+      constructor
+      · intro h i hi
+        obtain ⟨hs, h1, h2⟩ := h i hi
+        exact (relO_finished (hpost i hi)).1 ⟨hs, h1, h2⟩
+      · intro h i hi
+        obtain ⟨hs, h1, h2⟩ := h i hi
+        exact (relO_finished (hpost i hi)).2 ⟨hs, h1, h2⟩
+  · have hr' : handlerReasons.contains cfg.reason = false := by simpa using hr
+    rw [cycle_not_handler_reason cfg P now now1 exec hr', cycle_not_handler_reason cfg Q now now1 exec hr']
+    exact ⟨rfl, rfl⟩
+
+/-- In particular: the UNFINISHED record of a handler that is not selected any more (its field was reverted, its
+    label flipped) does not keep the cycle open. The pass after which every selected handler has finished closes the
+    cycle, and that record goes with all the others. -/
+theorem closed_despite_unselected_unfinished (cfg : Cfg) (P : Store) (now now1 : Tick) (exec : Id → Nat → Outcome)
+    (hsub : ∀ i ∈ cfg.selected, i ∈ cfg.owned)
+    (hr : handlerReasons.contains cfg.reason = true) (hne : cfg.selected.isEmpty = false)
+    (j : Id) (r : Rec) (ho : j ∈ cfg.owned) (_hns : j ∉ cfg.selected) (_hP : P j = some r) (_hunf : r.finished = false)
+    (hall : ∀ i ∈ cfg.selected, ∃ h, postState cfg P now now1 exec i = some h ∧ h.r.finished = true) :
+    (cycle cfg P now now1 exec).closed = true ∧ ∀ i ∈ cfg.owned, (cycle cfg P now now1 exec).P' i = none := by
+  have hc := (closed_iff_all_finished cfg P now now1 exec hsub hr hne).2 hall
+  exact ⟨hc, closed_purges cfg P now now1 exec hr hne hc⟩
+
+-- non-vacuity = the history of seed C03d: `hx` (field spec.x) failed temporarily, its unfinished record (purpose
+-- update) is on the object; spec.x was reverted and spec.y changed, so `hy` alone is selected, for the same cause;
+-- `hy` succeeds: the pass invokes `hy` with retry 0, closes the cycle and purges BOTH records — exactly as on an
+-- object without `hx`'s record
+example :
+    seedP "hx/spec.x" = some seedRecX ∧ seedRecX.finished = false ∧ seedRecX.purpose = some seedCfg.reason ∧
+    "hx/spec.x" ∈ seedCfg.owned ∧ "hx/spec.x" ∉ seedCfg.selected ∧
+    (cycle seedCfg seedP 515 515 (fun _ _ => okOutcome)).invoked = [("hy/spec.y", 0)] ∧
+    (cycle seedCfg seedP 515 515 (fun _ _ => okOutcome)).closed = true ∧
+    (cycle seedCfg seedP 515 515 (fun _ _ => okOutcome)).P' "hx/spec.x" = none ∧
+    (cycle seedCfg seedP 515 515 (fun _ _ => okOutcome)).P' "hy/spec.y" = none ∧
+    (cycle seedCfg (fun _ => none) 515 515 (fun _ _ => okOutcome)).closed = true ∧
+    (∀ i ∈ seedCfg.selected, seedP i = (fun _ => none : Store) i) := by decide
 
 /-- … nor any record of their sub-handlers (the `subrefs` of every known state). -/
 theorem closed_purges_subrefs (cfg : Cfg) (P : Store) (now now1 : Tick) (exec : Id → Nat → Outcome)
@@ -258,6 +316,49 @@ theorem once_per_cycle (cfg : Cfg) (hsub : ∀ i ∈ cfg.selected, i ∈ cfg.own
   have hsel := (invoked_selected_awake cfg P s.now s.now1 s.exec hsub i n hinv).1
   exact finished_never_invoked cfg hsub rest _ (noExtras_preserved cfg P s.now s.now1 s.exec hsub hne)
     i r' (hsub i hsel) hP' hf'
+
+/-- The closing decisions of the seeded variant C03d (`done := not state.counts.running`) over the following passes,
+    each from what the previous one left (whether or not it "closed"). -/
+def variantClosedSeq (cfg : Cfg) : Store → List Step → List Bool
+  | _, [] => []
+  | P, s :: rest =>
+      let c := cycleRunningVariant cfg P s.now s.now1 s.exec
+      c.closed :: variantClosedSeq cfg c.P' rest
+
+/-- The variant NEVER closes a cycle over the unfinished record of a handler that is not selected: in no later pass,
+    whatever the selected handlers do, at whatever times, for as long as the selection stays (the de-selected
+    handler is never invoked — `invoked_selected_awake` — so its record never changes). -/
+theorem counts_running_variant_never_closes (cfg : Cfg) (hsub : ∀ i ∈ cfg.selected, i ∈ cfg.owned)
+    (hr : handlerReasons.contains cfg.reason = true) (hsel : cfg.selected.isEmpty = false)
+    (j : Id) (ho : j ∈ cfg.owned) (hns : j ∉ cfg.selected) (steps : List Step) :
+    ∀ (P : Store), NoExtras cfg P → ∀ r, P j = some r → r.finished = false →
+      ∀ c ∈ variantClosedSeq cfg P steps, c = false := by
+  induction steps with
+  | nil => intro P _ r _ _ c hc; simp [variantClosedSeq] at hc
+  | cons s rest ih =>
+    intro P hne r hP hunf c hc
+    obtain ⟨h1, h2, h3⟩ := variant_stuck cfg P s.now s.now1 s.exec hsub hr hsel hne j r ho hns hP hunf
+    simp only [variantClosedSeq, List.mem_cons] at hc
+    rcases hc with rfl | hc
+    · exact h1
+    · exact ih _ h3 r h2 hunf c hc
+
+/-- WITNESS that the seeded change C03d violates "closed exactly when every selected handler has finished", on the
+    seed's own history: the code's pass (`cycle`) closes the cycle when `hy` succeeds and leaves no record; the
+    variant does not close it in that pass — although the only selected handler HAS finished and is recorded as a
+    success — nor in any later one (so last-handled is never written, both records stay, and a later change of
+    spec.y finds `hy`'s stale success and does not run it: `no_rerun`). -/
+theorem counts_running_variant_never_closes_witness :
+    (cycle seedCfg seedP 515 515 (fun _ _ => okOutcome)).closed = true ∧
+    (∀ i ∈ seedCfg.owned, (cycle seedCfg seedP 515 515 (fun _ _ => okOutcome)).P' i = none) ∧
+    (cycleRunningVariant seedCfg seedP 515 515 (fun _ _ => okOutcome)).closed = false ∧
+    ((cycleRunningVariant seedCfg seedP 515 515 (fun _ _ => okOutcome)).P' "hy/spec.y").map (·.success) = some true ∧
+    (cycleRunningVariant seedCfg seedP 515 515 (fun _ _ => okOutcome)).P' "hx/spec.x" = some seedRecX ∧
+    ∀ steps : List Step, ∀ c ∈ variantClosedSeq seedCfg seedP steps, c = false := by
+  refine ⟨by decide, by decide, by decide, by decide, by decide, ?_⟩
+  intro steps
+  exact counts_running_variant_never_closes seedCfg (by decide) (by decide) (by decide) "hx/spec.x" (by decide) (by decide)
+    steps seedP seed_noExtras seedRecX (by decide) (by decide)
 
 /-- The guard is not decorative. Two passes over the same object: in the first, "h" is invoked, succeeds,
     and the cycle stays open ("g" is still due). If the second pass starts from the record the first pass
